@@ -291,23 +291,29 @@ fn value_sweep(tier: Tier, t: &mut Tally) {
                     if !(1e-9..=1e12).contains(&dollars) {
                         continue;
                     }
+                    // confidence of the time-weighted price: the same fraction as the spot one, and (fewer in the
+                    // quick tier) fractions of its own, so that the two confidences cannot stand in for each other
+                    let own: Vec<Option<u64>> = if tier == Tier::Quick { vec![None, Some(300)] } else { vec![None, Some(0), Some(300), Some(2358), Some(4717), Some(9000)] };
                     for &pp in &conf_pps {
+                        for &ema_own in &own {
                         for &(en, ed) in &emas {
                             let conf = (price as u128 * pp as u128 / 100_000) as u64;
                             let ema = (price / ed * en).max(1);
-                            let ema_conf = (ema as u128 * pp as u128 / 100_000) as u64;
+                            let ema_pp = ema_own.unwrap_or(pp);
+                            let ema_conf = (ema as u128 * ema_pp as u128 / 100_000) as u64;
                             let mut s = s0.clone();
                             set_pyth(&mut s, &w.banks[target].oracle.unwrap(), price, conf, ema, ema_conf, expo, 0, true);
                             // 1000 whole tokens of collateral, 3 of debt
                             forge_positions(&mut s, &acct, (w.banks[0].key, 1000 * 10i128.pow(6)), Some((w.banks[1].key, 3 * 10i128.pow(9))));
                             let tag = format!("pyth:{side}:max{mc}");
-                            let rep = json!({"model": "C09A", "side": side, "max_conf": mc, "price": price, "expo": expo, "conf_pp": pp, "ema": [en, ed]});
+                            let rep = json!({"model": "C09A", "side": side, "max_conf": mc, "price": price, "expo": expo, "conf_pp": pp, "ema_conf_pp": ema_pp, "ema": [en, ed]});
                             let p = pulse(w, &s, &acct, None);
                             t.cells += 1;
                             judge_pulse(&tag, w, &s, &acct, &p, &rep, t);
                             if t.samples.len() < 3 && t.cells % 1777 == 0 {
                                 t.samples.push(json!({"case": rep, "program": {"asset_value": rf::qf64(&rf::q(p.hc.asset_value)), "liability_value": rf::qf64(&rf::q(p.hc.liability_value)), "flags": p.hc.flags}}));
                             }
+                        }
                         }
                     }
                 }
